@@ -1268,7 +1268,12 @@ impl Checker<'_> {
                 // the reason")
                 // (not for writes to a client's own $SYS entries: their announcements are only
                 // attributed to requests where the session-end rules need them)
-                if prop != "C07" {
+                // Restricted to publish streams: what a session's sPubInit/sPub must be answered
+                // depends on that session's own earlier requests only. Reads depend on the whole
+                // store, and in C13's workload (sessions the server ends for protocol violations,
+                // $SYS-reaching patterns) the model of the store is not kept exact enough to judge
+                // them - that is C01's and C05's job on their own workloads.
+                if prop != "C07" && matches!(req, CM::SPub(_) | CM::SPubInit(_)) {
                 self.violate(
                     "C13",
                     "answer-not-the-reason",
